@@ -41,6 +41,7 @@ class C12(Campaign):
     quick_runs = 2500
     thorough_runs = 40000
     fault_kinds = ["late-listener@op", "re-attach@op (same object again)", "several instances interleaved",
+                   "listener attached first to a shallow copy (copy.copy) of the machine, then to the machine",
                    "guard name provided by several objects", "coroutine listener (constructor or late)"]
     rule = ("one run = a generated machine whose callback names (actions of every group, plain-name guards and "
             "validators) are spread over machine, model, 0-2 constructor listeners and 0-2 late listeners; 1-2 "
@@ -115,11 +116,18 @@ class C12(Campaign):
             out.append(nb)
         pending = list(late)
         attached = {"A": list(ctor), "B": list(nb["listeners"]) if two else []}
+        shallow = (not two) and bool(late) and not is_async_ctor and rnd.random() < 0.2
+        if shallow:
+            # a shallow copy shares the listener OBJECTS with the original; what is attached to one
+            # machine is still a per-machine matter.  The copy is never driven here.
+            out.append({"op": "clone", "inst": "A", "as": "S", "how": "copy"})
         for op in sc["ops"][1:]:
             inst = rnd.choice(["A", "B"]) if two else "A"
             r = rnd.random()
             if pending and r < 0.25:
                 role = pending.pop()
+                if shallow and rnd.random() < 0.7:
+                    out.append({"op": "add_listener", "inst": "S", "listeners": [role]})
                 out.append({"op": "add_listener", "inst": inst, "listeners": [role]})
                 attached[inst].append(role)
             elif attached[inst] and r < 0.35:
@@ -189,6 +197,9 @@ class C12(Campaign):
         prog = sc["programs"][0]
         ctx = {}
         new = {o["inst"]: o for o in sc["ops"] if o["op"] == "new"}
+        for o in sc["ops"]:
+            if o["op"] == "clone" and o["inst"] in new:
+                new[o["as"]] = new[o["inst"]]
         late_async = False
         for o in sc["ops"]:
             if o["op"] == "add_listener":
@@ -219,6 +230,8 @@ class C12(Campaign):
                     c.get("fault.re-attach" if o.get("again") else "fault.late-listener", 0) + 1
         if any(o.get("inst") == "B" for o in sc["ops"]):
             c["probe.two_instances"] = 1
+        if any(o["op"] == "clone" for o in sc["ops"]):
+            c["fault.shallow-copy-sharing-listener-objects"] = 1
         if self.context(sc, None, None)["async_listener_added_to_sync_machine"]:
             c["fault.async-listener-added-to-sync-machine"] = 1
         return c
